@@ -97,7 +97,7 @@ def run_group(crate, filters, tag, jobs=16, timeout_s=600, cbmc_args=None, featu
         meta["compile_error"] = True
         meta["error_tail"] = f"unreadable kani json: {e}"
         return results, meta
-    stats = {c["harness_id"]: c.get("cbmc_stats", {}) for c in d.get("cbmc", [])}
+    stats = {c["harness_id"]: (c.get("cbmc_stats") or {}) for c in d.get("cbmc", [])}
     meta["tools"] = d.get("tools", {})
     meta["harness_meta"] = {h["pretty_name"]: h for h in d.get("harness_metadata", [])}
     for h in d.get("harness_metadata", []):
@@ -106,12 +106,12 @@ def run_group(crate, filters, tag, jobs=16, timeout_s=600, cbmc_args=None, featu
         hid = r["harness_id"]
         hr = results.setdefault(hid, HarnessResult(hid))
         hr.duration_s = r.get("duration_ms", 0) / 1000.0
-        st = stats.get(hid, {})
-        hr.symex_s = round(st.get("runtime_symex_s", 0.0), 2)
-        hr.solver_s = round(st.get("runtime_decision_procedure_s", 0.0), 2)
-        hr.vccs = st.get("vccs_generated", 0)
-        hr.vccs_remaining = st.get("vccs_remaining", 0)
-        hr.prog_size = st.get("size_program_expression", 0)
+        st = stats.get(hid) or {}
+        hr.symex_s = round(st.get("runtime_symex_s") or 0.0, 2)
+        hr.solver_s = round(st.get("runtime_decision_procedure_s") or 0.0, 2)
+        hr.vccs = st.get("vccs_generated") or 0
+        hr.vccs_remaining = st.get("vccs_remaining") or 0
+        hr.prog_size = st.get("size_program_expression") or 0
         checks = r.get("checks", [])
         hr.total = len(checks)
         for c in checks:
